@@ -178,6 +178,13 @@ theorem accounted_step {v : Variant} {s s' : State} {e : Event} (ha : Accounted 
     obtain ⟨_, rfl⟩ := h
     have := runCount_set .unlocking t0 hi
     simp [State.goto] at this h0 ⊢; omega
+  | wRecheck i =>
+    simp only [step] at h
+    split at h <;> try (simp at h)
+    rename_i hi
+    obtain ⟨_, rfl⟩ := h
+    have := runCount_set .hasL t0 hi
+    simp [State.goto] at this h0 ⊢; omega
   | wUnlock i =>
     simp only [step] at h
     split at h <;> try (simp at h)
